@@ -436,3 +436,220 @@ Proof.
       * destruct (ob =? 0); [apply espec_more; auto; rewrite He; discriminate|exact Hemit].
       * exact Hact.
 Qed.
+
+(* ------------------------------------------------------------------ *)
+(* progress                                                            *)
+(* ------------------------------------------------------------------ *)
+Lemma rev_append_length (a b : list N) : length (rev_append a b) = length a + length b.
+Proof. rewrite rev_append_rev, app_length, rev_length. reflexivity. Qed.
+
+Lemma enc_loop_mono : forall fuel st inp ib ob cn rout fl st' cn' rout' stop,
+  enc_loop fuel st inp ib ob cn rout fl = (st', cn', rout', stop) ->
+  cn <= cn' /\ length rout <= length rout'.
+Proof.
+  induction fuel as [|f IH]; intros st inp ib ob cn rout fl st' cn' rout' stop H.
+  { cbn in H. injection H as <- <- <- <-. lia. }
+  rewrite enc_loop_S in H. cbv zeta in H.
+  assert (Hemit : step_emit f st inp ib ob cn rout fl = (st', cn', rout', stop) ->
+                  cn <= cn' /\ length rout <= length rout').
+  { unfold step_emit. intro H'. apply IH in H'. rewrite rev_append_length in H'. lia. }
+  assert (Hact : forall a, step_act f st inp ib ob cn rout fl a = (st', cn', rout', stop) ->
+                 cn <= cn' /\ length rout <= length rout').
+  { intros a H'. destruct a; cbn [step_act] in H'.
+    - destruct (enc_block _ _). apply IH in H'. lia.
+    - destruct inp; [injection H' as <- <- <- <-; lia|]. apply IH in H'. lia.
+    - apply IH in H'. lia.
+    - injection H' as <- <- <- <-. lia. }
+  repeat match type of H with
+         | (if ?b then _ else _) = _ => destruct b
+         end; first [solve [eauto]|injection H as <- <- <- <-; lia].
+Qed.
+
+Definition sigma (st : test) (inp : list N) (ib : nat) (fl : flush) : nat :=
+  if e_ending st then 0
+  else match enc_action st inp ib fl with ABlock _ => 2 | AEndmark => 1 | _ => 0 end.
+
+Lemma act_cases st inp ib fl :
+  e_ending st = false -> (inp = [] \/ ib <> 0) -> (inp <> [] \/ fl = FlushFull) ->
+  (exists last, enc_action st inp ib fl = ABlock last) \/
+  (enc_action st inp ib fl = ATake /\ inp <> []) \/
+  (enc_action st inp ib fl = AEndmark).
+Proof.
+  intros He H1 H2. unfold enc_action. rewrite He.
+  destruct (negb (length (e_ibuf st) <? e_blk st)); [left; eauto|].
+  destruct inp as [|c inp].
+  - destruct H2 as [H2|H2]; [congruence|]. subst fl. cbn [is_full].
+    destruct (nilb (e_ibuf st)); [right; right; reflexivity|left; eauto].
+  - destruct H1 as [H1|H1]; [discriminate|]. apply Nat.eqb_neq in H1. rewrite H1.
+    right. left. split; [reflexivity|discriminate].
+Qed.
+
+Lemma sigma_after_block st enc ended inp ib fl :
+  1 <= e_blk st -> sigma (st_block st enc ended) inp ib fl <= 1.
+Proof.
+  intro Hb. unfold sigma, enc_action. cbn [st_block st_upd e_ending e_ibuf e_blk length].
+  destruct ended; [lia|].
+  replace (0 <? e_blk st) with true by (symmetry; apply Nat.ltb_lt; lia). cbn [negb].
+  destruct inp.
+  - destruct (is_full fl); cbn [nilb]; lia.
+  - destruct (ib =? 0); lia.
+Qed.
+
+Lemma enc_progress : forall fuel st inp ib ob cn rout fl st' cn' rout',
+  sigma st inp ib fl < fuel -> ob <> 0 -> (inp = [] \/ ib <> 0) -> (inp <> [] \/ fl = FlushFull) ->
+  1 <= e_blk st ->
+  enc_loop fuel st inp ib ob cn rout fl = (st', cn', rout', EsMore) ->
+  cn < cn' \/ length rout < length rout'.
+Proof.
+  induction fuel as [|f IH]; intros st inp ib ob cn rout fl st' cn' rout' Hsig Hob Hib Hin Hblk H; [lia|].
+  rewrite enc_loop_S in H. cbv zeta in H.
+  assert (Hemit : e_pend st <> [] -> step_emit f st inp ib ob cn rout fl = (st', cn', rout', EsMore) ->
+                  cn < cn' \/ length rout < length rout').
+  { intros Hp H'. unfold step_emit in H'. apply enc_loop_mono in H'. rewrite rev_append_length, firstn_length in H'.
+    right. destruct (e_pend st); [congruence|]. simpl length in H'. lia. }
+  assert (Hact : e_ending st = false ->
+                 step_act f st inp ib ob cn rout fl (enc_action st inp ib fl) = (st', cn', rout', EsMore) ->
+                 cn < cn' \/ length rout < length rout').
+  { intros He H'. unfold sigma in Hsig. rewrite He in Hsig.
+    destruct (act_cases st inp ib fl He Hib Hin) as [[last Ea]|[[Ea Hne]|Ea]]; rewrite Ea in *; cbn [step_act] in H'.
+    - destruct (enc_block _ _) as [enc ended].
+      eapply IH; [| | | | |exact H']; auto.
+      pose proof (sigma_after_block st enc ended inp ib fl Hblk). lia.
+    - destruct inp as [|c inp]; [congruence|]. apply enc_loop_mono in H'. lia.
+    - eapply IH; [| | | | |exact H']; auto. unfold sigma. cbn [st_endmark st_upd e_ending]. lia. }
+  destruct (e_ending st) eqn:He.
+  - destruct (nilb (e_pend st)) eqn:Hp; cbn [negb andb] in H; [discriminate|].
+    apply nilb_false in Hp.
+    rewrite enc_action_none_ending in H by assumption. cbn [has_act] in H.
+    apply Nat.eqb_neq in Hob. rewrite Hob in H. cbn [negb andb] in H.
+    destruct (e_greedy st); auto.
+  - cbn [andb] in H. specialize (Hact eq_refl).
+    destruct (e_greedy st).
+    + destruct (has_act (enc_action st inp ib fl)) eqn:Ha; [auto|].
+      exfalso. destruct (act_cases st inp ib fl He Hib Hin) as [[last Ea]|[[Ea Hne]|Ea]]; rewrite Ea in Ha; discriminate.
+    + destruct (nilb (e_pend st)) eqn:Hp; cbn [negb] in H; [auto|].
+      apply nilb_false in Hp. apply Nat.eqb_neq in Hob. rewrite Hob in H. auto.
+Qed.
+
+(* ------------------------------------------------------------------ *)
+(* one call of the "library" and the contract                          *)
+(* ------------------------------------------------------------------ *)
+Definition TERep (st : test) (fed em : list N) : Prop := EInv st fed em.
+Definition tefin (st : test) : Prop := e_ending st = true.
+
+Definition estat_of (stop : estop) (c o : list N) : lstatus :=
+  match stop with
+  | EsEnd => LEnd
+  | EsMore => if (0 <? length c) || negb (nilb o) then LOk else LBuf
+  end.
+
+Definition efuel (st : test) (inp : list N) (cap : nat) : nat :=
+  4 * (length inp + cap + length (e_pend st)) + 16.
+
+Lemma toy_enc_facts st inp cap fl fed em :
+  TERep st fed em -> eadm test tefin st inp fl ->
+  exists c o t stop st',
+    inp = c ++ t /\ length c <= lim (e_maxin st) (length inp) /\ length o <= lim (e_maxout st) cap /\
+    ESpec st inp (lim (e_maxin st) (length inp)) (lim (e_maxout st) cap) 0 [] fl fed em (st', length c, rev o, stop) /\
+    enc_loop (efuel st inp cap) st inp (lim (e_maxin st) (length inp)) (lim (e_maxout st) cap) 0 [] fl
+      = (st', length c, rev o, stop) /\
+    toy_enc_step st inp cap fl = mkL (length c) o (estat_of stop c o) st'.
+Proof.
+  intros HR HA. unfold toy_enc_step. fold (efuel st inp cap).
+  pose proof (enc_loop_spec (efuel st inp cap) st inp (lim (e_maxin st) (length inp)) (lim (e_maxout st) cap)
+                0 [] fl fed em HR (fun H => match HA H with conj a b => conj b a end)) as HS.
+  destruct (enc_loop _ _ _ _ _ _ _ _) as [[[st' cn'] rout'] stop] eqn:HL.
+  pose proof HS as HS'.
+  destruct HS as (c & o & t & E1 & E2 & E3 & L1 & L2 & _).
+  simpl in E2. rewrite app_nil_r in E3. subst cn' rout'.
+  exists c, o, t, stop, st'.
+  split; [assumption|]. split; [assumption|]. split; [assumption|]. split; [exact HS'|]. split; [reflexivity|].
+  rewrite rev_append_rev, app_nil_r, rev_involutive.
+  destruct stop; reflexivity.
+Qed.
+
+Lemma lim_le' k a : lim k a <= a.
+Proof. unfold lim. destruct (k =? 0); lia. Qed.
+Lemma lim_pos' k a : a <> 0 -> lim k a <> 0.
+Proof. unfold lim. destruct (k =? 0) eqn:E; [auto|]. apply Nat.eqb_neq in E. lia. Qed.
+
+Lemma firstn_app_exact' (c t : list N) : firstn (length c) (c ++ t) = c.
+Proof. rewrite firstn_app, Nat.sub_diag, firstn_all. simpl. apply app_nil_r. Qed.
+
+Lemma estat_more stop c o : ok_or_buf (estat_of stop c o) -> stop = EsMore.
+Proof. destruct stop; cbn; [reflexivity|]. intros [H|H]; discriminate. Qed.
+
+Lemma EInv_reset st : 1 <= e_blk st -> EInv (toy_enc_reset (st_reset st)) [] [].
+Proof.
+  intro Hb. split; [exact Hb|]. split; [cbn; lia|]. exists []. cbn. auto.
+Qed.
+
+Theorem toy_enc_contract : enc_contract TMember test toy_enc TERep phi tefin true.
+Proof.
+  constructor; cbn [toy_enc c_step c_reset c_mid].
+  - (* bounds *)
+    intros st fed em inp cap fl HR HA. cbv zeta.
+    destruct (toy_enc_facts st inp cap fl fed em HR HA) as (c & o & t & stop & st' & E & L1 & L2 & _ & _ & ->).
+    cbn [l_cons l_out]. pose proof (lim_le' (e_maxin st) (length inp)). pose proof (lim_le' (e_maxout st) cap). lia.
+  - (* step *)
+    intros st fed em inp cap fl HR HA. cbv zeta.
+    destruct (toy_enc_facts st inp cap fl fed em HR HA) as (c & o & t & stop & st' & E & L1 & L2 & HS & _ & ->).
+    cbn [l_cons l_out l_stat l_st]. intro Hok. apply estat_more in Hok. subst stop.
+    destruct HS as (c' & o' & t' & E1 & E2 & E3 & _ & _ & _ & HP & _).
+    simpl in E2. rewrite app_nil_r in E3. apply (f_equal (@rev N)) in E3. rewrite !rev_involutive in E3. subst o'.
+    assert (c' = c).
+    { rewrite E in E1. clear - E1 E2. revert c' E1 E2. induction c as [|a c IH]; intros [|b c'] E1 E2; simpl in *; try lia; auto.
+      injection E1 as -> E1. f_equal. apply (IH c' E1). lia. }
+    subst c'. rewrite E, firstn_app_exact'. exact HP.
+  - (* end *)
+    intros st fed em inp cap fl HR HA. cbv zeta.
+    destruct (toy_enc_facts st inp cap fl fed em HR HA) as (c & o & t & stop & st' & E & L1 & L2 & HS & _ & ->).
+    cbn [l_cons l_out l_stat l_st]. intro Hend.
+    destruct stop; cbn [estat_of] in Hend; [destruct (_ || _); discriminate|].
+    destruct HS as (c' & o' & t' & E1 & E2 & E3 & _ & _ & _ & Hfl & Ht & Hm & Hst).
+    simpl in E2. rewrite app_nil_r in E3. apply (f_equal (@rev N)) in E3. rewrite !rev_involutive in E3. subst o' t'.
+    rewrite app_nil_r in E1. subst c'.
+    assert (t = []).
+    { rewrite E in E2. rewrite app_length in E2. destruct t; [reflexivity|simpl in E2; lia]. }
+    subst t. rewrite app_nil_r in E. subst c.
+    split; [assumption|]. split; [reflexivity|]. split; [assumption|].
+    unfold eafter_end. cbn [c_reset toy_enc]. subst st'.
+    split; [apply EInv_reset; destruct HR; assumption|].
+    unfold tefin. cbn. discriminate.
+  - (* fin *)
+    intros st fed em inp cap fl HR HA. cbv zeta.
+    destruct (toy_enc_facts st inp cap fl fed em HR HA) as (c & o & t & stop & st' & E & L1 & L2 & HS & _ & ->).
+    cbn [l_cons l_out l_stat l_st]. intros Hok Hfin. apply estat_more in Hok. subst stop.
+    destruct HS as (c' & o' & t' & E1 & E2 & E3 & _ & _ & _ & _ & HL & _).
+    destruct (HL Hfin) as [-> ->]. split; [reflexivity|]. simpl in E2. rewrite app_nil_r in E1. rewrite E1. exact E2.
+  - (* progress *)
+    intros st fed em inp cap fl HR HA. cbv zeta.
+    destruct (toy_enc_facts st inp cap fl fed em HR HA) as (c & o & t & stop & st' & E & L1 & L2 & HS & HLoop & ->).
+    cbn [l_cons l_out l_stat l_st]. intros Hin Hcap Hok. apply estat_more in Hok. subst stop.
+    apply enc_progress in HLoop.
+    + simpl in HLoop. rewrite rev_length in HLoop. lia.
+    + unfold sigma, efuel. destruct (e_ending st); [lia|]. destruct (enc_action st inp _ fl); lia.
+    + apply lim_pos'. lia.
+    + destruct inp as [|a inp]; [left; reflexivity|right; apply lim_pos'; simpl; lia].
+    + exact Hin.
+    + destruct HR; assumption.
+  - (* no_err *)
+    intros st fed em inp cap fl HR HA.
+    destruct (toy_enc_facts st inp cap fl fed em HR HA) as (c & o & t & stop & st' & _ & _ & _ & _ & _ & ->).
+    cbn [l_stat]. destruct stop; cbn; [destruct (_ || _)|]; discriminate.
+  - (* drain *)
+    intros st fed em inp cap fl HR HA. cbv zeta.
+    destruct (toy_enc_facts st inp cap fl fed em HR HA) as (c & o & t & stop & st' & E & L1 & L2 & HS & _ & ->).
+    cbn [l_cons l_out l_stat l_st]. intros Hok Hc0. apply estat_more in Hok. subst stop.
+    destruct HS as (c' & o' & t' & E1 & E2 & E3 & _ & _ & _ & _ & _ & Hphi).
+    simpl in E2. rewrite app_nil_r in E3. apply (f_equal (@rev N)) in E3. rewrite !rev_involutive in E3. subst o'.
+    apply Hphi. destruct c'; [reflexivity|simpl in E2; lia].
+Qed.
+
+Lemma toy_enc_init_rep blk maxin maxout greedy finrun : 1 <= blk ->
+  TERep (toy_enc_init blk maxin maxout greedy finrun) [] [] /\ ~ tefin (toy_enc_init blk maxin maxout greedy finrun).
+Proof.
+  intro Hb. split.
+  - split; [exact Hb|]. split; [cbn; lia|]. exists []. cbn. auto.
+  - unfold tefin. cbn. discriminate.
+Qed.
